@@ -48,9 +48,17 @@ pub fn raw_push_pop(bits: &[bool], rng: &mut Rng) -> RawVector {
     let mut i = 0;
     loop {
         if rng.chance(1, 4) || i == bits.len() {
-            let k = 1 + rng.below(70);
-            for _ in 0..k { raw.push_bit(true); }
-            for _ in 0..k { let _ = raw.pop_bit(); }
+            // Set bits pushed behind the content and popped again, one at a time or as integers of any width (so that
+            // pops straddle word boundaries and drop whole words): nothing of them may stay behind the length.
+            if rng.chance(1, 2) {
+                let k = 1 + rng.below(70);
+                for _ in 0..k { raw.push_bit(true); }
+                for _ in 0..k { let _ = raw.pop_bit(); }
+            } else {
+                let widths: Vec<usize> = (0..1 + rng.below(3)).map(|_| 1 + rng.below(64)).collect();
+                for &w in widths.iter() { unsafe { simple_sds::raw_vector::PushRaw::push_int(&mut raw, !0u64, w); } }
+                for &w in widths.iter().rev() { let _ = unsafe { raw.pop_int(w) }; }
+            }
         }
         if i == bits.len() { break; }
         raw.push_bit(bits[i]);
@@ -62,6 +70,7 @@ pub fn raw_push_pop(bits: &[bool], rng: &mut Rng) -> RawVector {
 pub fn bv_set_bit(bits: &[bool]) -> BitVector { BitVector::from(raw_set_bit(bits)) }
 pub fn bv_push(bits: &[bool], rng: &mut Rng) -> BitVector { BitVector::from(raw_push(bits, rng)) }
 pub fn bv_iter(bits: &[bool]) -> BitVector { bits.iter().copied().collect() }
+pub fn bv_push_pop(bits: &[bool], rng: &mut Rng) -> BitVector { BitVector::from(raw_push_pop(bits, rng)) }
 
 pub fn enable_all(bv: &mut BitVector) {
     bv.enable_rank();
